@@ -43,5 +43,12 @@ def r2(ctx):
     ctx.check('gap|bounded-by-capacity', g == ['((slice::len(self.cookies) - self.valid) as u8)'], 'gap() is %s' % g, sample=g)
 
 
-RULES = [r1, r2]
-FLOORS = {'C14-R1': 50, 'C14-R2': 9}
+def r3(ctx):
+    ctx.rule('C14-R3', 'the size argument counts new_cookies cookie-sized fields: both NTS request builders emit exactly one NtsCookie(cookie) outside the loop and one '
+             'NtsCookiePlaceholder{cookie.len()} per element of 1..new_cookies')
+    from rules.C13 import builder_cookie_fields
+    builder_cookie_fields(ctx)
+
+
+RULES = [r1, r2, r3]
+FLOORS = {'C14-R1': 50, 'C14-R2': 9, 'C14-R3': 10}
